@@ -357,6 +357,14 @@ class Lexer:
 
             elif state == 312:  # hex num second digit
                 tempbuf += ch
+                if (
+                    tempbuf[0] not in "0123456789abcdefABCDEF"
+                    or tempbuf[1] not in "0123456789abcdefABCDEF"
+                ):
+                    raise CklSyntaxError(
+                        f"Invalid hex escape '\\x{tempbuf}'",
+                        SourcePos(fname, line, column)
+                    )
                 token += chr(int(tempbuf, 16))
                 tempbuf = ""
                 state = 3
@@ -394,6 +402,14 @@ class Lexer:
 
             elif state == 412:  # hex num second digit
                 tempbuf += ch
+                if (
+                    tempbuf[0] not in "0123456789abcdefABCDEF"
+                    or tempbuf[1] not in "0123456789abcdefABCDEF"
+                ):
+                    raise CklSyntaxError(
+                        f"Invalid hex escape '\\x{tempbuf}'",
+                        SourcePos(fname, line, column)
+                    )
                 token += chr(int(tempbuf, 16))
                 tempbuf = ""
                 state = 4
@@ -457,7 +473,12 @@ class Lexer:
                     token += ch
                 elif ch in "()[]<>=! \t\n\r+-*/%,;#":
                     here = SourcePos(fname, line, column - len(token))
-                    token = str(int(token.replace("_", ""), 16))
+                    try:
+                        token = str(int(token.replace("_", ""), 16))
+                    except ValueError:
+                        raise CklSyntaxError(
+                            f"Invalid hex literal '0x{token}'", here
+                        )
                     self.tokens.append(Token(token, "int", here))
                     token = ""
                     pos -= 1
@@ -472,9 +493,13 @@ class Lexer:
                     token += ch
                 elif ch in "()[]<>=! \t\n\r+-*/%,;#":
                     here = SourcePos(fname, line, column - len(token))
-                    self.tokens.append(
-                        Token(str(int(token.replace("_", ""), 2)), "int", here)
-                    )
+                    try:
+                        token = str(int(token.replace("_", ""), 2))
+                    except ValueError:
+                        raise CklSyntaxError(
+                            f"Invalid binary literal '0b{token}'", here
+                        )
+                    self.tokens.append(Token(token, "int", here))
                     token = ""
                     pos -= 1
                     updatepos = False
